@@ -179,7 +179,7 @@ func TestVerif_C05_varintdec(t *testing.T) {
 	for i := 0; i < 256; i++ {
 		inputs = append(inputs, []byte{byte(i)})
 	}
-	for _, v := range c05values(s, verifh.N(300, 30000)) {
+	for _, v := range c05values(s, verifh.N(300, 6000)) {
 		if v >= 1<<62 {
 			continue
 		}
